@@ -3,7 +3,7 @@
 PROPS = {}
 HARNESSES = []
 # properties whose check is registered in MANIFEST.json (the others are listed under not_applicable)
-CLAIMED = ["C02", "C08", "C09", "C10", "C11"]
+CLAIMED = ["C02", "C08", "C09", "C10", "C11", "C12"]
 
 FMT = "alloc::fmt::format->String::new()"
 
@@ -147,17 +147,18 @@ prop("C05",
 for k, mem, to in ((0, 8, 600), (1, 10, 900), (2, 12, 1500)):
     h("C05", "c05::c05_tiling_k%d" % k, funcs=["volume::File::records", "volume::split_compressed_records", "Record::data"], space="all files of %d records, |size| <= 4, any sign, any bytes" % k, bounds="K = %d, unwind 10" % k, mem=mem, timeout=to)
 h("C05", "c05::c05_tiling_k3", tier="thorough", funcs=["volume::File::records", "volume::split_compressed_records"], space="all files of 3 records, |size| <= 8", bounds="K = 3, unwind 14", mem=24, timeout=3600)
-h("C05", "c05::c05_header_fields_ascii", funcs=["volume::Header::{deserialize,tape_filename,extension_number,icao_of_radar,date_time}"], space="all 24-byte headers whose three text fields are ASCII; date/time words free", bounds="unwind 12", mem=8, timeout=1800)
+h("C05", "c05::c05_header_fields_ascii", funcs=["volume::Header::{deserialize,tape_filename,extension_number,icao_of_radar,date_time}"], space="all 24-byte headers whose three text fields are ASCII; date/time words free", bounds="unwind 14", mem=8, timeout=1800)
 h("C05", "c05::c05_header_fields", tier="thorough", funcs=["volume::Header::{deserialize,tape_filename,extension_number,icao_of_radar,date_time}"], space="all 2^192 headers", bounds="unwind 12 (9-byte UTF-8 validation)", mem=8, timeout=1800)
 
 # ------------------------------------------------------------------------------------------- C07
 prop("C07",
-     level_text="Bounded model checking of Message::radial / into_radial, GenericDataBlock::decoded_values and MomentData::values: header mapping for all headers (in-range date/time), moment routing for all 2^7 presence subsets, the value rule for all 256 raw bytes over a listed set of scale/offset pairs, plus an SMT (QF_FP) equivalence of the two value formulas' MIR for all finite f32 scale/offset (engine Z).",
+     level_text="Bounded model checking of Message::radial / into_radial, GenericDataBlock::decoded_values and MomentData::values: header mapping for all headers (in-range date/time), moment routing for 11 concrete presence patterns (all, each single, none, dual-pol only and its complement), the value rule for all 256 raw bytes over a listed set of scale/offset pairs, plus an SMT (QF_FP) equivalence of the two value formulas' MIR for all finite f32 scale/offset (engine Z).",
      level_note="Trusted: Kani/CBMC float bit-blasting; z3/cvc5 QF_FP for the Z query. The K value harness ranges over ten listed (scale, offset) pairs because symbolic f32 division does not terminate in CBMC; the Z query covers all finite pairs. 16-bit moments: see known finding.",
      outside="more than 2 gates per moment in one query; NaN angles in the equality of the two conversions (PartialEq on f32)")
 h("C07", "c07::c07_header_mapping", funcs=["digital_radar_data::Message::{radial,into_radial}", "Header::{date_time,radial_status}", "Radial::new + accessors"], space="all headers with non-NaN angles (date/time concrete)", bounds="no loop; complete", mem=10, timeout=1500)
 h("C07", "c07::c07_collection_time", funcs=["digital_radar_data::Message::{radial,into_radial}", "Header::date_time", "DateTime::timestamp_millis"], space="all dates 1..=65535 x all times < 86,400,000 ms", bounds="no loop; complete", mem=10, timeout=2400)
-h("C07", "c07::c07_moment_routing", funcs=["Message::{radial,into_radial}", "GenericDataBlock::{moment_data,into_moment_data}", "MomentData::values"], space="all 2^7 presence subsets, 1 gate each", bounds="1 gate per moment; unwind 9", mfs=2048, mem=16, timeout=2400)
+for nm, sp in (("all", "all seven moments present"), ("single", "each single moment alone, and none"), ("dualpol_only", "ZDR+PHI+RHO only, and the complement")):
+    h("C07", "c07::c07_moment_routing_%s" % nm, funcs=["Message::{radial,into_radial}", "GenericDataBlock::{moment_data,into_moment_data}", "MomentData::values"], space="presence pattern: %s; header symbolic, 1 gate per moment with distinct raw/scale/offset" % sp, bounds="concrete presence patterns; unwind 9", mfs=2048, mem=12, timeout=1800)
 h("C07", "c07::c07_values_levels_agree", funcs=["GenericDataBlock::decoded_values", "MomentData::values"], space="all 256 raw bytes x 10 listed (scale, offset) pairs", bounds="1 gate; unwind 4", mem=10, timeout=1800)
 h("C07", "c07::c07_gate_count_word8", funcs=["GenericDataBlock::decoded_values", "MomentData::values"], space="gates 0..=2, any bytes, 8-bit words", bounds="gates <= 2; unwind 5", mem=10, timeout=1500)
 h("C07", "c07::c07_known_word16_witness", witness_for="c07_word16", funcs=["GenericDataBlock::decoded_values", "MomentData::values"], space="1 gate, 16-bit word, any 2 data bytes", bounds="unwind 6", mem=10, timeout=1500)
@@ -193,10 +194,19 @@ for n, tier, mem, to in ((1, "quick", 8, 900), (2, "quick", 10, 900), (3, "quick
 
 # ------------------------------------------------------------------------------------------- C03
 prop("C03",
-     level_text="Bounded model checking of decode_messages on streams of up to 2 (quick) / 3 (thorough) messages: 2432-byte frames whose type code ranges over all 256 values and minimal contiguous type-31 messages, with symbolic trailing fragments and truncation points; asserts count, order, header identity, contents kind and error-vs-shorter-list behaviour.",
+     level_text="Bounded model checking of decode_messages on streams of one and two messages: 2432-byte frames of concrete representative type codes (2, 5, 15; thorough: 0, 33, 255 and all 253 opaque codes symbolically) and minimal contiguous type-31 messages, with symbolic message headers, trailing fragments and truncation points; asserts count, order, header identity, contents kind and error-vs-shorter-list behaviour.",
      level_note="Trusted: Kani/CBMC; alloc::fmt::format stubbed; frame bodies are concrete zeros (a valid status message and a valid 0-cut VCP) because the body of an opaque type is never interpreted - body field fidelity is C11/C12.",
-     outside="streams longer than 3 messages; frames of types 2/5 with non-zero bodies (C11/C12); Record::messages (one extra call)")
-h("C03", "c03::c03_one_frame_plus_fragment", funcs=["decode_messages", "decode_message_header", "decode_message_contents", "decode_rda_status_message", "decode_volume_coverage_pattern"], space="one 2432-byte frame, all 255 non-31 type codes, symbolic header, trailing fragment of 0..=27 symbolic bytes", bounds="1 message; unwind 30 (28-byte header copy loops of the harness)", mfs=2500, mem=24, timeout=2400)
+     outside="streams longer than 2 messages; symbolic type codes in the quick tier; frames of types 2/5 with non-zero bodies (C11/C12); Record::messages (one extra call)")
+DM = ["decode_messages", "decode_message_header", "decode_message_contents"]
+for nm, sp in (("c03_frame_t15_fragment", "type 15 + trailing fragment of 0..=27 symbolic bytes"), ("c03_frame_t2_fragment", "type 2 (status) + fragment"), ("c03_frame_t5", "type 5 (VCP)"),
+               ("c03_frame_t0", "type 0"), ("c03_frame_t33_fragment", "type 33 + fragment"), ("c03_frame_t255", "type 255")):
+    h("C03", "c03::%s" % nm, tier="quick" if nm in ("c03_frame_t15_fragment", "c03_frame_t5") else "thorough", funcs=DM, space="one 2432-byte frame, %s; message header symbolic" % sp, bounds="1 message, concrete type code; unwind 30", mfs=2600, mem=16, timeout=1800)
+h("C03", "c03::c03_one_opaque_frame_any_type", tier="thorough", funcs=DM, space="one frame, all 253 opaque type codes symbolic", bounds="1 message; unwind 30", mfs=2600, mem=24, timeout=7200)
+for nm, sp in (("c03_frame15_then_type31", "[frame 15][type-31 with one ELV block]"), ("c03_type31_then_frame15", "[type-31][frame 15]"), ("c03_type31_then_frame2", "[type-31][frame 2]")):
+    h("C03", "c03::%s" % nm, tier="quick" if nm != "c03_type31_then_frame2" else "thorough", funcs=DM + ["decode_digital_radar_data"], space="%s; both headers and the elevation number symbolic" % sp, bounds="2 messages, concrete frame type; unwind 30", mfs=2600, mem=20, timeout=2400)
+h("C03", "c03::c03_two_frames_same_type", funcs=DM, space="two type-15 frames, both headers symbolic (any segment count/number)", bounds="2 messages; unwind 30", mfs=5000, mem=20, timeout=2400)
+h("C03", "c03::c03_cut_inside_opaque_body", funcs=DM, space="frame 15 + header of type 13 + body cut after 0..=100 bytes", bounds="cut within 100 body bytes; unwind 30", mfs=2600, mem=20, timeout=2400)
+h("C03", "c03::c03_cut_inside_status_body", tier="thorough", funcs=DM, space="frame 15 + header of type 2 + body cut after 0..=100 bytes", bounds="cut within 100 body bytes; unwind 30", mfs=2600, mem=20, timeout=3600)
 
 # ------------------------------------------------------------------------------------------- C13
 prop("C13",
@@ -205,9 +215,9 @@ prop("C13",
      outside="more than 2 elevation segments; other placements of non-empty azimuths; zone counts above 2")
 CFM = ["clutter_filter_map::decode_clutter_filter_map", "util::deserialize", "RangeZone::op_code"]
 h("C13", "c13::c13_structure_s0", funcs=CFM, space="all headers with 0 segments", bounds="S = 0", mem=8)
-h("C13", "c13::c13_structure_s1", funcs=CFM, space="1 segment x 360 azimuths; zones (2,1,2) at azimuths 0,1,359 with symbolic values", bounds="S = 1; unwind 362", mfs=16384, mem=24, timeout=3000)
-h("C13", "c13::c13_structure_s2", tier="thorough", funcs=CFM, space="2 segments x 360 azimuths; zones (1,0,2)", bounds="S = 2; unwind 362", mfs=16384, mem=40, timeout=7200)
-h("C13", "c13::c13_truncated", funcs=CFM, space="one declared segment, zero zone counts, every cut point 0..=726", bounds="unwind 362", mfs=16384, mem=24, timeout=3000, unwind_is_violation=True)
+h("C13", "c13::c13_structure_s1", tier="thorough", funcs=CFM, space="1 segment x 360 azimuths; zones (2,1,2) at azimuths 0,1,359 with symbolic values", bounds="S = 1; unwind 362", mfs=16384, mem=24, timeout=10800)
+h("C13", "c13::c13_structure_s2", tier="thorough", funcs=CFM, space="2 segments x 360 azimuths; zones (1,0,2)", bounds="S = 2; unwind 362", mfs=16384, mem=40, timeout=21600)
+h("C13", "c13::c13_truncated", tier="thorough", funcs=CFM, space="one declared segment, zero zone counts, every cut point 0..=726", bounds="unwind 362", mfs=16384, mem=24, timeout=10800, unwind_is_violation=True)
 h("C04", "c04::c04_type31_one_block_free", tier="thorough", funcs=["decode_digital_radar_data", "Message::radial", "GenericDataBlock::new"], space="all 2^(8*74) 76-byte inputs with block count 1: pointer, block type/name, gates, word size free", bounds="fixed length 76, 1 block; unwind 12", mem=16, mfs=128, unwind_is_violation=True, timeout=2400)
 h("C07", "z::c07_value_formula", kind="z", script="smt/z_c07.py", funcs=["GenericDataBlock::decoded_values::{closure#0} (MIR)", "MomentData::values + {closure#0,#1} (MIR)"], space="all 256 raw bytes x all finite f32 scale x all finite f32 offset (levels: every f32 bit pattern)", bounds="loop-free closures: no bound; QF_FP, z3 and cvc5 must agree", mem=6, timeout=1200)
 h("C04", "c04::c04_type31_one_block_ascii_name", funcs=["decode_digital_radar_data", "Message::radial", "GenericDataBlock::new"], space="76-byte inputs, one block at offset 36, block type and ASCII name free (all 2^21 names), gates/word size/rest free", bounds="fixed length 76, 1 block; unwind 12", mem=16, mfs=128, unwind_is_violation=True, timeout=2400)
@@ -230,11 +240,7 @@ prop("C14",
 for n, tier, mem, to in ((0, "quick", 8, 900), (1, "quick", 16, 1800), (2, "quick", 24, 2400), (3, "thorough", 40, 7200)):
     h("C14", "c14::c14_summary_n%d" % n, tier=tier, funcs=["summarize::messages", "summarize::rda::extract_rda_status_info", "summarize::vcp::extract_vcp_info", "MessageHeader::{message_type,date_time}"], space="all lists of %d messages: kinds^%d x elevation numbers x opaque type codes x times of day" % (n, n), bounds="N = %d" % n, mem=mem, timeout=to, mfs=4096)
 h("C19", "c19::c19_estimate_history", funcs=["realtime::estimate_next_chunk_time", "ChunkTimingStats::{new,add_timing,get_average_timing,get_average_attempts}", "std HashMap/VecDeque"], space="11 samples under one key (durations 0..=60000 ms, attempts 1..=5, all symbolic) + 1 sample under another key", bounds="exactly 11+1 recorded samples; unwind 24", mfs=4096, mem=24, timeout=3600)
-h("C03", "c03::c03_frame_then_type31", funcs=["decode_messages", "decode_message_contents", "decode_digital_radar_data"], space="[2432-byte frame, any of 255 type codes][type-31 with one ELV block]; both headers and the elevation number symbolic", bounds="2 messages; unwind 30", mfs=2600, mem=24, timeout=3000)
-h("C03", "c03::c03_type31_then_frame", funcs=["decode_messages", "decode_message_contents", "decode_digital_radar_data"], space="[type-31 with one ELV block][2432-byte frame, any of 255 type codes]", bounds="2 messages; unwind 30", mfs=2600, mem=24, timeout=3000)
-h("C03", "c03::c03_cut_inside_body", funcs=["decode_messages", "decode_message_contents"], space="one complete frame + second header + body cut after 0..=100 bytes; both type codes symbolic (non-31)", bounds="cut within the first 100 body bytes; unwind 30", mfs=2600, mem=24, timeout=3000)
-h("C13", "c13::c13_truncated_last_zones", funcs=CFM, space="one segment whose azimuth 359 declares two zones; cut at 726..=734", bounds="unwind 362", mfs=16384, mem=24, timeout=3000, unwind_is_violation=True)
-h("C03", "c03::c03_two_frames", funcs=["decode_messages", "decode_message_contents"], space="two 2432-byte frames, both type codes (non-31) and both headers symbolic", bounds="2 messages; unwind 30", mfs=5000, mem=24, timeout=3000)
+h("C13", "c13::c13_truncated_last_zones", tier="thorough", funcs=CFM, space="one segment whose azimuth 359 declares two zones; cut at 726..=734", bounds="unwind 362", mfs=16384, mem=24, timeout=10800, unwind_is_violation=True)
 h("C04", "c04::c04_vcp_fixed_frame", funcs=["decode_volume_coverage_pattern"], space="all 2^(8*114) inputs of 114 bytes", bounds="fixed length; unwind 5", mfs=128, mem=12, unwind_is_violation=True, timeout=1800)
 h("C04", "c04::c04_messages_short_stream", funcs=["decode_messages", "decode_message_header", "decode_message_contents", "decode_digital_radar_data"], space="76-byte streams: free message header, type 31, one block with free type/ASCII name/contents", bounds="fixed length 76; unwind 12", mfs=128, mem=24, unwind_is_violation=True, timeout=3000)
 h("C01", "c01::c01_two_radials_same_elevation", funcs=SC, space="1 record, 2 radials of elevation 1, each with a VOL block: azimuth numbers, VCP numbers, times symbolic", bounds="2 radials, concrete elevation numbers (1,1); unwind 8", mfs=4096, mem=30, timeout=3600)
@@ -249,3 +255,4 @@ for nm, sp in (("c02_two_vol_ref", "VOL then REF, contiguous, pointers in order"
                ("c02_two_elv_rad_gap", "ELV then RAD after a 4-byte gap"), ("c02_two_phi_rho_permuted", "PHI then RHO, gap 2, pointer table permuted"),
                ("c02_two_cfp_zdr", "CFP then ZDR, gap 1")):
     h("C02", "c02::%s" % nm, tier="quick" if nm in ("c02_two_ref_vol_permuted_gaps",) else "thorough", funcs=D31, space="header + 2 blocks (%s): all other bytes symbolic, word size 8|16" % sp, bounds="2 blocks, concrete layout; unwind 10", mfs=256, mem=16, timeout=2400)
+h("C13", "c13::c13_truncated_early", funcs=CFM, space="one declared segment, zero zone counts, every cut point 0..=30", bounds="L = 30; unwind 16", mem=12, timeout=1800, unwind_is_violation=True)
